@@ -72,6 +72,7 @@ type PackOpts struct {
 	NoEmptyTrack    bool
 	AudioOnly       bool
 	BigSamples      bool
+	HugeDurs        bool // a few sample durations around 2^31 / 2^32-1 (legal; sums inside one trun pass 2^32)
 	MixIntervalFull bool // single samples (AddFullSample) may follow sample intervals in one fragment
 	SplitTruns      bool // single-track fragments may carry their samples in two trun boxes (legal; built with CreateTrun/AddChild)
 	Styp            int  // 0: seeded per segment, 1: every segment, 2: never
@@ -115,8 +116,15 @@ func SetupPackager() error {
 	return loadParamSets()
 }
 
+func drawDur(t *sim.Tape, huge bool) uint32 {
+	if huge && t.Chance(40) {
+		return []uint32{0x7fffffff, 0x80000000, 0xffffffff, 0x7fffffff}[t.Draw(4)]
+	}
+	return durPool[t.Draw(len(durPool))]
+}
+
 var durPool = []uint32{1024, 1024, 1024, 512, 3000, 1, 0, 90000}
-var flagPool = []uint32{mp4.NonSyncSampleFlags, mp4.NonSyncSampleFlags, mp4.SyncSampleFlags, 0x01010000, 0, 0x02800040}
+var flagPool = []uint32{mp4.NonSyncSampleFlags, mp4.NonSyncSampleFlags, mp4.SyncSampleFlags, 0x01010000, 0, 0x02800040, 0x02010000}
 var ctoPool = []int32{0, 0, 0, 1024, 2048, -512, 3000, -1}
 var sizePool = []int{100, 1, 2, 15, 16, 17, 95, 111, 112, 113, 127, 128, 129, 200, 1000, 4096, 0}
 var tsPool = []uint32{90000, 48000, 1000, 12800, 1}
@@ -324,7 +332,7 @@ func Package(r *sim.Run, o PackOpts) (*Production, error) {
 				video := p.Tracks[ti].Media == "video"
 				rec := SampleRec{
 					Data:  makePayload(t, rnd, video, o.NALVideo, o.BigSamples),
-					Dur:   durPool[t.Draw(len(durPool))],
+					Dur:   drawDur(t, o.HugeDurs),
 					Flags: flagPool[t.Draw(len(flagPool))],
 					Cto:   ctoPool[t.Draw(len(ctoPool))],
 					Dts:   nextDts[ti],
